@@ -64,7 +64,7 @@ def run(ctx, model_ok):
     res = out['results']
     ctx.evaluations = len(metas)
     ctx.rule = ('every syscall/trap row x marker START tuples (distinct per position; enum-typed words drawn from their enum, flag-typed words from the unions of their declared members), each '
-                'START word varied alone (incl. 2^63+5 and 2^64-1) and the END record varied alone, with 0..2 nested lookups; '
+                'START word varied alone (incl. 2^63+5 and 2^64-1) and the END record varied alone, with 0..2 nested lookups; plus, through the pairing machine, START(lost END) START END versus START END; '
                 'non-trivial = distinct (row, tuple) whose rendering has >= 2 numeric parameters')
     for key, a, b in groups:
         base_r = res[a]
@@ -113,6 +113,32 @@ def run(ctx, model_ok):
                         ctx.failing.append({'input': {'key': key, 'first_a': first, 'first_b': metas[i][1], 'last': metas[a][2]},
                                             'expected': f'only parameter {j} may change when START word {j} changes',
                                             'actual': [bt, t], 'why': f'numeric parameter {k} changed with START word {j}'})
+    # through the pairing machine: a START whose END was lost, then the same call again - the text must come from the START
+    # that opened the reported call (the most recent one), never from the stale one
+    from ..harness import dumps as D
+    preqs, pinfo = [], []
+    pkeys = keys if not ctx.quick() else rng.sample(keys, min(len(keys), 120))
+    for key in pkeys:
+        a1 = dc.in_domain_first(R, key, rng, base=[5001, 5002, 5003, 5004], flags_in_domain=True)
+        a2 = dc.in_domain_first(R, key, rng, base=[6001, 6002, 6003, 6004], flags_in_domain=True)
+        last = [0, 7, 0, 0]
+        code = R.code_of[key]
+        stale = [D.record(1, a1, 7, code | 1), D.record(2, a2, 7, code | 1), D.record(3, last, 7, code | 2)]
+        fresh = [D.record(2, a2, 7, code | 1), D.record(3, last, 7, code | 2)]
+        for recs in (stale, fresh):
+            preqs.append({'file': D.build_v2([(7, 1, b'p')], 0, recs).hex(), 'cfg': {'color': False}, 'calls': ['traces']})
+        pinfo.append((key, a1, a2, last))
+    pres = vlib.run_impl('run_api.py', {'cases': preqs}, timeout=3000)['results']
+    ctx.evaluations += len(preqs)
+    for j, (key, a1, a2, last) in enumerate(pinfo):
+        st, fr = pres[2 * j][0], pres[2 * j + 1][0]
+        ts = [it[4] for it in st['items']]
+        tf = [it[4] for it in fr['items']]
+        if st['err'] or fr['err'] or ts != tf:
+            ctx.failing.append({'input': {'key': key, 'events': [['START', a1], ['START', a2], ['END', last]]},
+                                'expected': tf, 'actual': st['err'] or ts,
+                                'why': 'after a START whose END was lost, the next call is not rendered from its own START '
+                                       '(numeric parameters come from another event)'})
     ctx.samples = [{'key': metas[0][0], 'first': metas[0][1], 'last': metas[0][2],
                     'impl_text': bytes.fromhex(res[0].get('text', '')).decode('utf-8', 'replace')}]
     if model_ok:
